@@ -17,6 +17,7 @@ import ast
 
 from .. import ctx
 from ..fnview import FnView
+from .. import paths
 from ..pattern import match
 from ..project import AnalysisError, call_name, kwarg, norm, walk_no_nested
 from ..roles import MarshalRoles
@@ -167,33 +168,38 @@ def b2_b3(run, project):
     if f is None or u is None:
         raise AnalysisError("B2: io/binary/unmarshal.py: to_bytes/unmarshal not found")
     ev = f.args.args[0].arg
-    V = FnView(mod, f)
-    rets = [n for n in V.cfg.nodes if n.kind == "stmt" and isinstance(n.ast, ast.Return)]
-    enc = [r for r in rets if not (isinstance(r.ast.value, ast.Constant) and r.ast.value.value == b"")]
-    empty = [r for r in rets if isinstance(r.ast.value, ast.Constant) and r.ast.value.value == b""]
-    run.ob("B2", len(enc) == 1 and norm(enc[0].ast.value) == f"{ev}.value.to_bytes()", "primitive events encode as event.value.to_bytes()",
-           f"encoding return is `{[norm(r.ast.value) for r in enc]}`", module=mod, node=f, func="to_bytes", construct="encode return")
-    # guards: InfoEvent -> b"", value is ... -> b"" ; both dominate the encoding return
-    guards = {"info": False, "ellipsis": False}
-    for r in empty:
-        p = r.ast._parent
-        if isinstance(p, ast.If):
-            tt = norm(p.test)
-            if tt == f"isinstance({ev}, InfoEvent)" and r.ast in p.body:
-                guards["info"] = True
-            if tt == f"{ev}.value is ..." and r.ast in p.body:
-                guards["ellipsis"] = True
-    run.ob("B2", guards["info"], "info events encode to nothing", "no `isinstance(event, InfoEvent) -> b\"\"` guard", module=mod,
-           node=f, func="to_bytes", construct="InfoEvent guard")
-    run.ob("B2", guards["ellipsis"], "structural (`...`) events encode to nothing", "no `event.value is ... -> b\"\"` guard",
-           module=mod, node=f, func="to_bytes", construct="ellipsis guard")
-    if enc:
-        tests = [n for n in V.cfg.nodes if n.kind == "test"]
-        ok = len(tests) >= 2 and all(t.id in V.dom[enc[0].id] for t in tests)
-        run.ob("B2", ok, "both guards are evaluated before encoding", "a guard does not dominate the encoding return",
-               module=mod, node=f, func="to_bytes", construct="guard dominance")
-    run.ob("B2", len(rets) == len(enc) + len(empty) and len(empty) == 2, "no other outcome of to_bytes(event)",
-           f"{len(rets)} returns", module=mod, node=f, func="to_bytes", construct="returns")
+    # path summaries of to_bytes: outcome as a function of the two guards, however the branches are written
+    A, B = f"isinstance({ev}, InfoEvent)", f"{ev}.value is ..."
+    enc = f"{ev}.value.to_bytes()"
+    spec = [({A: True}, "b''"), ({B: True}, "b''")]
+    ps = paths.summarise(mod, f)
+    run.require(len(ps) >= 1, "B2: no path through to_bytes")
+    for p in ps:
+        got = p.value_text() if p.end == "return" else f"<{p.end}>"
+        want = paths.decide(spec, enc, p)
+        label = " & ".join(("" if v else "not ") + a for a, v, _ in p.cond) or "always"
+        what = {"b''": "encode to nothing"}.get(got, "encode as " + str(got))
+        if want == {"b''"} and got != "b''":
+            kind = "InfoEvent guard" if p.truth(A) else "ellipsis guard"
+            why = ("an info event" if p.truth(A) else "a structural (`...`) event") + f" is encoded as `{got}` instead of b\"\""
+        elif want == {enc} and got != enc:
+            kind, why = "encode return", f"a primitive event is encoded as `{got}` instead of `{enc}`"
+        else:
+            kind, why = "returns", f"outcome `{got}` does not follow from the two guards alone (expected {sorted(want)})"
+        run.ob("B2", want == {got}, f"to_bytes [{label}]: {what}", why, module=mod, node=p.node or f, func="to_bytes",
+               construct=kind)
+        # `event.value` is only read once the event is known not to be an InfoEvent (which has no value)
+        seen_a = None
+        for a_, v_, n_ in p.cond:
+            if a_ == A:
+                seen_a = v_
+            elif f"{ev}.value" in a_ and seen_a is not False:
+                run.ob("B2", False, f"to_bytes [{label}]: guard order", f"`{a_}` is evaluated before the event is known not to be an "
+                       "InfoEvent (AttributeError on info events)", module=mod, node=n_, func="to_bytes", construct="guard dominance")
+        if got == enc:
+            run.ob("B2", p.truth(A) is False and p.truth(B) is False, f"to_bytes [{label}]: both guards decided before encoding",
+                   "a guard does not dominate the encoding return", module=mod, node=p.node or f, func="to_bytes",
+                   construct="guard dominance")
     # B3
     evs = u.args.args[0].arg
     ys = [y for y in walk_no_nested(u) if isinstance(y, (ast.Yield, ast.YieldFrom))]
